@@ -30,6 +30,15 @@ VARIANTS = {
 COMMON = ["-std=c++20", "-Wno-overloaded-virtual", "-D" + GUARD, "-pthread"]
 
 
+# Sanitizer reports abort the process (SIGABRT), which the harness' crash handler turns into a violation record naming
+# the execution in progress.  LeakSanitizer is off: leaks are decided by exact accounting in C19, not by a scan at exit.
+SAN_ENV = {
+    "ASAN_OPTIONS": "detect_leaks=0:abort_on_error=1:detect_stack_use_after_return=0:allocator_may_return_null=1",
+    "UBSAN_OPTIONS": "print_stacktrace=1:halt_on_error=1:abort_on_error=1",
+    "TSAN_OPTIONS": "halt_on_error=0:exitcode=66:report_signal_unsafe=0",
+}
+
+
 def log(*a):
     print(*a, file=sys.stderr, flush=True)
 
